@@ -766,3 +766,21 @@ package dht
 //@   requires nonnil: s != nil
 //@   modifies *
 //@   callsite github.com/anacrolix/torrent/bencode.Marshal a-query-marked-read-only-iff-passive: typeis($v, krpc.Msg) && unbox($v, krpc.Msg).Y == "q" && unbox($v, krpc.Msg).Q == q && unbox($v, krpc.Msg).T == t && unbox($v, krpc.Msg).ReadOnly == s.config.Passive && unbox($v, krpc.Msg).A != nil && unbox($v, krpc.Msg).A.ID == s.id.bits
+
+// ---- the constructor: the constants the other properties refer to (C05 K=8, C10 token window, C06 root ID) ----
+//@ func net.ListenPacket
+//@   trusted
+//@   ensures a-socket-or-an-error: result1 == nil ==> result0 != nil
+//@ func dht.NewDefaultServerConfig
+//@   trusted
+//@   ensures a-config: result != nil && result.PublicIP == nil && result.NodeId == 0 && !sameobj(result.PublicIP, result)
+//@ func dht.NewServer
+//@   requires a-usable-public-ip: c != nil ==> !sameobj(c.PublicIP, c) && (c.PublicIP != nil ==> len(c.PublicIP) == 4 || len(c.PublicIP) == 16)
+//@   requires limiter-global: DefaultSendLimiter != nil
+//@   modifies *
+//@   callsite (*dht.ServerConfig).InitNodeId with-a-socket-to-derive-the-id-from: $c.Conn != nil
+//@   ensures buckets-of-eight-rooted-at-the-own-id: err == nil ==> s != nil && s.table.k == 8 && s.table.rootID.bits == s.id.bits
+//@   ensures bep5-token-window: err == nil ==> s.tokenServer.maxIntervalDelta == 2 && s.tokenServer.interval == 300000000000 && len(s.tokenServer.secret) == 20
+//@   ensures a-store-a-limiter-a-socket: err == nil ==> s.store != nil && s.store.s != nil && !held(s.store.mu) && s.config.SendLimiter != nil && s.socket != nil && !held(s.mu)
+//@   ensures one-read-loop: err == nil ==> count("go:(*dht.Server).serveUntilClosed") == 1
+//@   ensures nothing-started-on-error: err != nil ==> count("go:(*dht.Server).serveUntilClosed") == 0
